@@ -265,6 +265,15 @@ GROUPS = {
         nontrivial='answer sections with a name of at least two labels',
         functions=['signed_packet_to_hickory_records_without_origin'],
     ),
+    # second line behind the Verus unit path_state
+    'path_state_bx': dict(
+        unit='path_state.rs', props=['C22'],
+        bounds=dict(quick=['5', '0'], thorough=['7', '0']),
+        space='every history of at most {0} operations from 11: a resolve request, the oldest waiting connect being cancelled, an opened path (IP or relay), address-lookup results (none, one, two addresses), a path being '
+              'abandoned, an address lookup finishing with or without an error — each waiter\'s channel read after every step and compared with a reference that restates the property',
+        nontrivial='histories of at least three operations with a resolve request',
+        functions=['RemotePathState::{new, insert_open_path, abandoned_path, insert_multiple, resolve_remote, resolve_requests_is_empty, address_lookup_finished, is_empty, emit_pending_resolve_requests, prune_paths}', 'prune_non_relay_paths'],
+    ),
     # second line behind the Verus unit builder_bind
     'builder_bind_bx': dict(
         unit='builder_bind.rs', props=['C20'],
